@@ -27,7 +27,7 @@ RULE = ('constructed crossings: shape pair x (tA,tB) x angle grid; exact counts:
         'configuration; non-trivial = admitted (not filtered) configuration; distinct = distinct configuration')
 ASSUMPTIONS = ['"well separated" is decided by an independent dense neighbourhood search (201x201 samples in the +-0.05 window)',
                'exact crossing counts by rational root isolation; pairs with a root at an end, a tangency or an undecided side are filtered',
-               'curve sizes between 0.1 and 1e3 (the solvers\' tolerances are absolute: 1e-6 boxes still give 1e-4 in parameter at size 0.1)']
+               'curve sizes between 0.1 and 1e3 for curved pairs and arcs (those solvers\' tolerances are absolute and user-tunable: 1e-6 boxes still give 1e-4 in parameter at size 0.1); Line-Line and Line-Bezier pairs at scales 1e-9..1e9']
 
 
 def kind(seg):
@@ -36,8 +36,8 @@ def kind(seg):
 
 def tier_params(tier, seed):
     if tier == 'quick':
-        return {'tA': [0.2, 0.7], 'tB': [0.3, 0.6], 'alpha': [30, 90, 170], 'scales': [1.0, 0.03], 'lat': 4}
-    return {'tA': [0.2, 0.5, 0.7], 'tB': [0.3, 0.6], 'alpha': [10, 30, 60, 90, 120, 170], 'scales': [1.0, 100.0, 0.03], 'lat': 5}
+        return {'tA': [0.2, 0.7], 'tB': [0.3, 0.6], 'alpha': [30, 90, 170], 'scales': [1.0, 0.03], 'lat': 4, 'line_scales': [1e-5, 1e-7, 1e6]}
+    return {'tA': [0.2, 0.5, 0.7], 'tB': [0.3, 0.6], 'alpha': [10, 30, 60, 90, 120, 170], 'scales': [1.0, 100.0, 0.03], 'lat': 5, 'line_scales': [1e-4, 1e-5, 1e-6, 1e-7, 1e-9, 1e6, 1e9]}
 
 
 def check_constructed(aname, bname, tA, tB, alpha, scale, acc):
@@ -60,8 +60,12 @@ def check_constructed(aname, bname, tA, tB, alpha, scale, acc):
         return
     pair = ka + kb
     acc.case(case, cls='constructed/%s' % pair)
+    if not 0.01 <= scale <= 1000:
+        acc.seen('constructed_extreme_scale/%s' % pair)
     r = outcome(lambda: A.intersect(B))
     sig = {'pair': pair}
+    if not 0.01 <= scale <= 1000:
+        sig['scale'] = 'tiny' if scale < 1 else 'huge'
     if ka == 'A' or kb == 'A':
         arc = A if ka == 'A' else B
         sig['arc_sweep'] = bool(arc.sweep)
@@ -211,6 +215,13 @@ def run_shard(desc, tier, seed):
         for sc in tp['scales']:
             for tA, tB, al in itertools.product(tp['tA'], tp['tB'], tp['alpha']):
                 check_constructed(desc['A'], desc['B'], tA, tB, al, sc, acc)
+        # pairs solved in closed form / by polynomial roots (a Line with a Line or a Bezier) have no
+        # absolute tolerance to tune: they must work at any drawing scale
+        ka, kb = desc['A'][0], desc['B'][0]
+        if 'L' in (ka, kb) and ka in 'LQC' and kb in 'LQC':
+            for sc in tp['line_scales']:
+                for tA, tB, al in itertools.product(tp['tA'], tp['tB'], tp['alpha']):
+                    check_constructed(desc['A'], desc['B'], tA, tB, al, sc, acc)
     elif desc['what'] == 'circles':
         for R in (1e2, 5e3, 5e4):   # beyond ~1e5 the two-circle formula h = sqrt(r0^2 - a^2) itself cancels
             for bs in (0.25, 1.0):
